@@ -375,7 +375,7 @@ def _sec_code(r, m):
                 raise DecodeError("too-many-locals", "%d locals declared" % total, off)
             groups.append((n, t))
         if total > 1 << 20:      # legal but absurd: do not expand (validator sees the groups)
-            raise DecodeError("too-many-locals", "%d locals: legal in 1.0 but beyond this "
+            raise DecodeError("locals-implementation-limit", "%d locals: legal in 1.0 but beyond this "
                               "reference's limit of 2^20" % total, start)
         for n, t in groups:
             locs.extend([t] * n)
